@@ -170,6 +170,9 @@ fn handle(ctx: &mut Option<Context>, cmd: &J) -> J {
 pub fn worker_main() -> ! {
     install_panic_hook();
     unsafe {
+        // a worker never outlives the process that supervises it (a supervisor that is killed
+        // while its worker is inside a long evaluation would otherwise leave it spinning)
+        libc::prctl(libc::PR_SET_PDEATHSIG, libc::SIGKILL);
         let lim = libc::rlimit {
             rlim_cur: 3 << 30,
             rlim_max: 3 << 30,
